@@ -127,6 +127,15 @@ def windowStr (log : List (Commit A)) (recs : List OpRec) (k : Nat) : String :=
 def corruptStr : Corrupt → String
   | _ => "err"
 
+/-- transactions in the tip block / on the whole chain (genesis has one). -/
+def numTx : Chain → Nat
+  | [] => 1
+  | b :: _ => 1 + b.spends.length
+
+def totalTx : Chain → Nat
+  | [] => 1
+  | b :: p => 1 + b.spends.length + totalTx p
+
 def isDeliver : Op → Bool
   | .deliver _ _ => true
   | _ => false
@@ -150,7 +159,7 @@ def reopenStr (cfg : Cfg) (img : Image A) (acked : List Chain) (ops : List Op) (
     let sj := (onDisk.filter (fun c => match c with
       | [] => false
       | b :: _ => b.spends.isEmpty || c ∈ rn.img.journal)).length
-    s!"r=ok,{cid rn.tip},{chain},{natsStr rn.utxo.1},{missing} mc={mc} bb={bb} sj={sj} fin={cid specTip};{cid after.tip};{natsStr after.utxo.1}"
+    s!"r=ok,{cid rn.tip},{chain},{natsStr rn.utxo.1},{missing} mc={mc} bb={bb} sj={sj} bs={rn.tip.length}/{numTx rn.tip}/{totalTx rn.tip} fin={cid specTip};{cid after.tip};{natsStr after.utxo.1}"
 
 def resList (recs : List OpRec) : String := ".".intercalate (recs.map (fun r => resStr r.res))
 
